@@ -2,10 +2,13 @@
    Statements only; proofs in Proofs/LexProofs.v.  [lex_step] is GENERATED from Lexer.scan on every run: the only
    outcomes of the scanner model are a token list or a lexical (syntax) error - a host exception is not a possible
    outcome of the generated step, whose partial host operations (int(.., 16), chr) are guarded in the source and
-   translated as total functions only under those guards (the translator rejects any other shape).  The parser is not
-   modelled: its totality is decided by the enumeration of checks/C01.py on the implementation (C01_parse_partial). *)
+   translated as total functions only under those guards (the translator rejects any other shape).  Of the parser the
+   operator core (parse_expression .. parse_primary_expr with calls, over int / boolean / identifier / ( ) , and the
+   arithmetic, comparison and boolean operators) has a hand model, Model/ExprParse.v, tied to parse_script by the
+   correspondence of checks/C02.py: C01_parse_core_total.  The rest of the parser is not modelled: its totality is decided by
+   the enumeration of checks/C01.py on the implementation (C01_parse_partial). *)
 From Coq Require Import ZArith List Bool.
-From Ckl Require Import Prelude.PyPrelude Prelude.LexPrelude Gen.LexGen Model.LexRun Proofs.LexProofs.
+From Ckl Require Import Prelude.PyPrelude Prelude.LexPrelude Gen.LexGen Model.LexRun Proofs.LexProofs Model.ExprParse Proofs.ExprParseTotal.
 Import ListNotations.
 Open Scope Z_scope.
 
@@ -24,3 +27,22 @@ Proof.
   intros src. pose proof (lex_total src) as T. destruct (lex src) as [ts|l|]; [left; eauto|right; eauto|congruence].
 Qed.
 Print Assumptions C01_lex_outcomes.
+
+(* the operator core of the recursive-descent parser terminates on every token list: neither a loop of a precedence level nor the
+   nesting of parentheses and call arguments can run on without consuming input *)
+Theorem C01_parse_core_total : forall ts, (exists e, parse ts = Ok e []) \/ parse ts = Err.
+Proof.
+  intros ts. pose proof (parse_total ts) as T. destruct (parse ts) as [e r| |] eqn:E; [left|right; reflexivity|congruence].
+  exists e. rewrite (parse_consumes ts e r E). reflexivity.
+Qed.
+Print Assumptions C01_parse_core_total.
+
+(* each level of the grammar consumes at least one token when it succeeds (the reason why the loops end) *)
+Theorem C01_parse_core_progress : forall n ts e r, p_prim n ts = Ok e r -> (length r < length ts)%nat.
+Proof. exact p_prim_prog. Qed.
+Print Assumptions C01_parse_core_progress.
+
+Example C01_parse_core_ex :
+  parse [TInt 1; TPlus; TLP; TId 0; TLP; TInt 2; TComma; TInt 3; TRP; TRP] = Ok (EBin 0 (EInt 1) (ECall (EVar 0) [EInt 2; EInt 3])) []
+  /\ parse [TInt 1; TPlus; TLP; TId 0] = Err /\ parse [TLP; TLP; TLP] = Err /\ parse [TInt 1; TInt 2] = Err.
+Proof. repeat split; reflexivity. Qed.
